@@ -7,7 +7,8 @@ Semantics (what the property states, not how quantem.core.config is written):
 * set(items)            last writer wins, items applied in order; a dotted key walks/creates namespaces.
 * update_defaults(new)  appended to the defaults; a stored value is overwritten only if the key is absent
                         or still equal to the current merged default; namespaces merge (siblings survive).
-* refresh()             state := left fold of the accumulated defaults (later defaults win, namespaces merge).
+* refresh(user_files)   state := left fold of the accumulated defaults (later defaults win, namespaces merge), then
+                        the user's configuration files merged on top the same way (nested, siblings survive).
 * open_with/close_with  like set, but remembers for every assigned path either the previous value or, for
                         the topmost component that did not exist, that it has to be removed; close restores in
                         reverse order.
@@ -191,8 +192,22 @@ class ConfigModel:
                 if k not in old or (isinstance(dflt, dict) and k in dflt and _eq(dflt[k], old[k])):
                     old[k] = cp(v)
 
-    def refresh(self):
-        self.cfg = self.merged_defaults()
+    def refresh(self, user_files=()):
+        """state := fold of the defaults, then the user's configuration files layered on top by nested merge
+        (files in name order; siblings of an overridden key keep their default values).
+        user_files: iterable of (file name, mapping)."""
+        cfg = self.merged_defaults()
+        for _name, mapping in sorted(user_files, key=lambda nm: nm[0]):
+            if not mapping:
+                continue
+            m = dict(mapping)
+            if "device" in m:
+                ok, val = self.device_rule(m["device"])
+                if not ok:
+                    raise DeviceRejected(repr(m["device"]))
+                m["device"] = val
+            deep_merge(cfg, m)
+        self.cfg = cfg
 
 
 def _eq(a, b):
